@@ -1,0 +1,421 @@
+//! Verification seams, compiled only with the `verif` cargo feature.
+//!
+//! Everything here is additive: with no explorer installed every shim delegates to the real
+//! primitive it stands in for, so the behaviour of the crate is unchanged.
+//!
+//! An *explorer* owns every scheduling decision the validators can observe:
+//! - the order in which results of `JoinSet` tasks are delivered ([`JoinSet`]),
+//! - the order in which the bodies of spawned validator threads run ([`fake_std::thread`]).
+//!
+//! Each decision is a call to [`choose`] with a *label* that identifies the choice point. Every
+//! label has its own stream of pre-recorded answers (missing answers default to `0`), and every
+//! decision is appended to a trace so that the explorer can enumerate the alternatives.
+
+use crate::validators::ValidationContext;
+use std::collections::{HashMap, VecDeque};
+use std::sync::{Mutex, MutexGuard};
+
+const CHOICES_ENV_VAR: &str = "BLOCKWATCH_VERIF_CHOICES";
+const TRACE_ENV_VAR: &str = "BLOCKWATCH_VERIF_TRACE";
+
+/// A single decision taken at a choice point.
+#[derive(Debug, Clone, PartialEq, Eq)]
+pub struct Choice {
+    pub label: String,
+    pub options: usize,
+    pub chosen: usize,
+}
+
+#[derive(Default)]
+struct Explorer {
+    streams: HashMap<String, VecDeque<usize>>,
+    trace: Vec<Choice>,
+    ordinals: HashMap<String, usize>,
+    trace_file: Option<std::path::PathBuf>,
+    // Set when a recorded answer is out of range for the choice point it is replayed at.
+    diverged: Option<String>,
+}
+
+static EXPLORER: Mutex<Option<Explorer>> = Mutex::new(None);
+static ENV_CHECKED: Mutex<bool> = Mutex::new(false);
+
+fn lock() -> MutexGuard<'static, Option<Explorer>> {
+    EXPLORER.lock().unwrap_or_else(|e| e.into_inner())
+}
+
+/// Installs an explorer with the given per-label answers. Replaces any previous explorer.
+pub fn install(streams: HashMap<String, Vec<usize>>) {
+    let mut guard = lock();
+    *guard = Some(Explorer {
+        streams: streams
+            .into_iter()
+            .map(|(label, answers)| (label, answers.into()))
+            .collect(),
+        ..Default::default()
+    });
+}
+
+/// Removes the explorer and returns the trace of all decisions taken since [`install`], plus a
+/// description of a replay divergence (if any).
+pub fn uninstall() -> (Vec<Choice>, Option<String>) {
+    let mut guard = lock();
+    match guard.take() {
+        Some(explorer) => (explorer.trace, explorer.diverged),
+        None => (Vec::new(), None),
+    }
+}
+
+/// Installs an explorer from the environment (used by the CLI binary): the file named by
+/// `BLOCKWATCH_VERIF_CHOICES` holds one `label<TAB>a,b,c` line per label; every decision is
+/// appended to the file named by `BLOCKWATCH_VERIF_TRACE` as `label<TAB>options<TAB>chosen`.
+fn install_from_env_once() {
+    let mut checked = ENV_CHECKED.lock().unwrap_or_else(|e| e.into_inner());
+    if *checked {
+        return;
+    }
+    *checked = true;
+    let Ok(choices_path) = std::env::var(CHOICES_ENV_VAR) else {
+        return;
+    };
+    let mut streams = HashMap::new();
+    if let Ok(text) = std::fs::read_to_string(&choices_path) {
+        for line in text.lines() {
+            if let Some((label, answers)) = line.split_once('\t') {
+                let answers: VecDeque<usize> = answers
+                    .split(',')
+                    .filter_map(|a| a.trim().parse().ok())
+                    .collect();
+                streams.insert(label.to_string(), answers);
+            }
+        }
+    }
+    let mut guard = lock();
+    if guard.is_none() {
+        *guard = Some(Explorer {
+            streams,
+            trace_file: std::env::var(TRACE_ENV_VAR).ok().map(Into::into),
+            ..Default::default()
+        });
+    }
+}
+
+/// Whether an explorer is installed.
+pub fn is_active() -> bool {
+    install_from_env_once();
+    lock().is_some()
+}
+
+/// Asks the explorer to pick one of `options` alternatives at the choice point `label`.
+///
+/// Returns `None` when no explorer is installed.
+pub fn choose(label: &str, options: usize) -> Option<usize> {
+    install_from_env_once();
+    let mut guard = lock();
+    let explorer = guard.as_mut()?;
+    let mut chosen = explorer
+        .streams
+        .get_mut(label)
+        .and_then(|stream| stream.pop_front())
+        .unwrap_or(0);
+    if chosen >= options {
+        explorer.diverged = Some(format!(
+            "answer {chosen} is out of range for {label} with {options} options"
+        ));
+        chosen = 0;
+    }
+    explorer.trace.push(Choice {
+        label: label.to_string(),
+        options,
+        chosen,
+    });
+    if let Some(trace_file) = &explorer.trace_file {
+        use std::io::Write;
+        if let Ok(mut file) = std::fs::OpenOptions::new()
+            .create(true)
+            .append(true)
+            .open(trace_file)
+        {
+            let _ = writeln!(file, "{label}\t{options}\t{chosen}");
+        }
+    }
+    Some(chosen)
+}
+
+/// Returns a label for a choice point constructed in source file `file`: the file stem plus the
+/// ordinal of the construction within the current execution (no line numbers, no absolute paths).
+fn site_label(kind: &str, file: &str) -> String {
+    let stem = std::path::Path::new(file)
+        .file_stem()
+        .and_then(|s| s.to_str())
+        .unwrap_or("unknown")
+        .to_string();
+    let mut guard = lock();
+    let ordinal = match guard.as_mut() {
+        Some(explorer) => {
+            let counter = explorer.ordinals.entry(format!("{kind}@{stem}")).or_insert(0);
+            *counter += 1;
+            *counter
+        }
+        None => 0,
+    };
+    format!("{kind}@{stem}#{ordinal}")
+}
+
+/// Stand-in for `tokio::task::JoinSet` whose `join_next` delivers the result of the task chosen by
+/// the explorer. Without an explorer it is a thin wrapper over the real `JoinSet`.
+pub struct JoinSet<T> {
+    real: Option<tokio::task::JoinSet<T>>,
+    handles: Vec<tokio::task::JoinHandle<T>>,
+    label: String,
+}
+
+impl<T: Send + 'static> JoinSet<T> {
+    #[track_caller]
+    #[allow(clippy::new_without_default)]
+    pub fn new() -> Self {
+        if is_active() {
+            Self {
+                real: None,
+                handles: Vec::new(),
+                label: site_label("joinset", std::panic::Location::caller().file()),
+            }
+        } else {
+            Self {
+                real: Some(tokio::task::JoinSet::new()),
+                handles: Vec::new(),
+                label: String::new(),
+            }
+        }
+    }
+
+    pub fn spawn<F>(&mut self, task: F)
+    where
+        F: std::future::Future<Output = T> + Send + 'static,
+    {
+        match &mut self.real {
+            Some(real) => {
+                real.spawn(task);
+            }
+            None => self.handles.push(tokio::task::spawn(task)),
+        }
+    }
+
+    pub fn len(&self) -> usize {
+        match &self.real {
+            Some(real) => real.len(),
+            None => self.handles.len(),
+        }
+    }
+
+    pub fn is_empty(&self) -> bool {
+        self.len() == 0
+    }
+
+    pub async fn join_next(&mut self) -> Option<Result<T, tokio::task::JoinError>> {
+        if let Some(real) = &mut self.real {
+            return real.join_next().await;
+        }
+        if self.handles.is_empty() {
+            return None;
+        }
+        let index = choose(&self.label, self.handles.len()).unwrap_or(0);
+        let handle = self.handles.remove(index);
+        Some(handle.await)
+    }
+
+    pub fn try_join_next(&mut self) -> Option<Result<T, tokio::task::JoinError>> {
+        if let Some(real) = &mut self.real {
+            return real.try_join_next();
+        }
+        None
+    }
+
+    pub async fn join_all(mut self) -> Vec<T> {
+        let mut output = Vec::new();
+        while let Some(result) = self.join_next().await {
+            match result {
+                Ok(value) => output.push(value),
+                Err(e) if e.is_panic() => std::panic::resume_unwind(e.into_panic()),
+                Err(e) => panic!("{e}"),
+            }
+        }
+        output
+    }
+
+    pub fn abort_all(&mut self) {
+        match &mut self.real {
+            Some(real) => real.abort_all(),
+            None => self.handles.iter().for_each(|handle| handle.abort()),
+        }
+    }
+}
+
+impl<T> Drop for JoinSet<T> {
+    fn drop(&mut self) {
+        // Like the real `JoinSet`, all remaining tasks are aborted when the set is dropped.
+        for handle in &self.handles {
+            handle.abort();
+        }
+    }
+}
+
+/// Stand-in for the `tokio` paths used by the validators runner.
+pub mod fake_tokio {
+    pub use ::tokio::runtime;
+    pub mod task {
+        pub use crate::verif_hooks::JoinSet;
+    }
+}
+
+/// Stand-in for the `std` paths used by the validators runner.
+pub mod fake_std {
+    pub mod thread {
+        use crate::verif_hooks::{choose, is_active};
+        use std::sync::{Arc, Mutex};
+
+        type Body = Box<dyn FnOnce() + Send>;
+
+        // Bodies of "spawned" threads that have not run yet.
+        static PENDING: Mutex<Vec<Body>> = Mutex::new(Vec::new());
+
+        enum Inner<T> {
+            Real(std::thread::JoinHandle<T>),
+            Deferred(Arc<Mutex<Option<std::thread::Result<T>>>>),
+        }
+
+        pub struct JoinHandle<T>(Inner<T>);
+
+        /// With an explorer installed the body is only recorded: it runs when some handle is
+        /// joined, in the order chosen by the explorer.
+        pub fn spawn<F, T>(body: F) -> JoinHandle<T>
+        where
+            F: FnOnce() -> T + Send + 'static,
+            T: Send + 'static,
+        {
+            if !is_active() {
+                return JoinHandle(Inner::Real(std::thread::spawn(body)));
+            }
+            let slot = Arc::new(Mutex::new(None));
+            let result_slot = Arc::clone(&slot);
+            let deferred: Body = Box::new(move || {
+                let result = std::panic::catch_unwind(std::panic::AssertUnwindSafe(body));
+                *result_slot.lock().unwrap_or_else(|e| e.into_inner()) = Some(result);
+            });
+            PENDING
+                .lock()
+                .unwrap_or_else(|e| e.into_inner())
+                .push(deferred);
+            JoinHandle(Inner::Deferred(slot))
+        }
+
+        impl<T> JoinHandle<T> {
+            pub fn join(self) -> std::thread::Result<T> {
+                match self.0 {
+                    Inner::Real(handle) => handle.join(),
+                    Inner::Deferred(slot) => loop {
+                        if let Some(result) = slot.lock().unwrap_or_else(|e| e.into_inner()).take()
+                        {
+                            return result;
+                        }
+                        let body = {
+                            let mut pending = PENDING.lock().unwrap_or_else(|e| e.into_inner());
+                            if pending.is_empty() {
+                                panic!("verif: joined a thread whose body is not pending");
+                            }
+                            let index = choose("thread-bodies", pending.len()).unwrap_or(0);
+                            pending.remove(index)
+                        };
+                        body();
+                    },
+                }
+            }
+        }
+    }
+}
+
+/// What the validators see of a block (the fields are crate-private).
+#[derive(Debug, Clone, PartialEq, Eq)]
+pub struct BlockDump {
+    pub file: std::path::PathBuf,
+    pub attributes: Vec<(String, String)>,
+    /// 1-based (line, byte column) of `<` and of `>` of the start tag.
+    pub start_tag_start: (usize, usize),
+    pub start_tag_end: (usize, usize),
+    pub content_bytes: std::ops::Range<usize>,
+    pub content_start: (usize, usize),
+    pub content_end: (usize, usize),
+    pub content: String,
+    pub is_content_modified: bool,
+    pub is_start_tag_modified: bool,
+}
+
+/// Dumps all blocks of the context, files in the context's iteration order, blocks in the order
+/// the validators see them.
+pub fn dump(context: &ValidationContext) -> Vec<BlockDump> {
+    let mut result = Vec::new();
+    for (file, file_blocks) in &context.blocks {
+        for block_with_context in &file_blocks.blocks_with_context {
+            let block = &block_with_context.block;
+            let mut attributes: Vec<(String, String)> = block
+                .attributes
+                .iter()
+                .map(|(k, v)| (k.clone(), v.clone()))
+                .collect();
+            attributes.sort();
+            result.push(BlockDump {
+                file: file.clone(),
+                attributes,
+                start_tag_start: (
+                    block.start_tag_position_range.start().line,
+                    block.start_tag_position_range.start().character,
+                ),
+                start_tag_end: (
+                    block.start_tag_position_range.end().line,
+                    block.start_tag_position_range.end().character,
+                ),
+                content_bytes: block.content_bytes_range.clone(),
+                content_start: (
+                    block.content_position_range.start.line,
+                    block.content_position_range.start.character,
+                ),
+                content_end: (
+                    block.content_position_range.end.line,
+                    block.content_position_range.end.character,
+                ),
+                content: file_blocks
+                    .file_content
+                    .get(block.content_bytes_range.clone())
+                    .unwrap_or("<content range is not a valid slice of the file>")
+                    .to_string(),
+                is_content_modified: block_with_context.is_content_modified,
+                is_start_tag_modified: block_with_context._is_start_tag_modified,
+            });
+        }
+    }
+    result
+}
+
+/// Rebuilds the context so that its files iterate in the given order (std hash maps keep their
+/// iteration order when moved, so the order is found by re-inserting into fresh maps).
+///
+/// Returns `None` if `order` is not a permutation of the context's files or no map with that
+/// iteration order was found within `attempts` tries.
+pub fn reorder(
+    context: ValidationContext,
+    order: &[std::path::PathBuf],
+    attempts: usize,
+) -> Result<ValidationContext, ValidationContext> {
+    if order.len() != context.blocks.len() || order.iter().any(|p| !context.blocks.contains_key(p))
+    {
+        return Err(context);
+    }
+    let mut entries: Vec<_> = context.blocks.into_iter().collect();
+    for _ in 0..attempts {
+        let map: HashMap<_, _> = entries.into_iter().collect();
+        if map.keys().zip(order).all(|(a, b)| a == b) {
+            return Ok(ValidationContext::new(map));
+        }
+        entries = map.into_iter().collect();
+    }
+    Err(ValidationContext::new(entries.into_iter().collect()))
+}
